@@ -65,6 +65,9 @@ def transforms(b, rnd, tier):
     for sub in ("www.", "www2.", "m.", "mobile.", "amp.", "WWW."):
         yield "irrelevant-subdomain:" + sub, b.copy(host=sub + b.host)
     yield "amp-prefix", b.copy(host="amp-" + b.host)
+    for sub in ("www.", "m."):
+        yield "irrelevant-subdomain-before-amp-prefix:" + sub, b.copy(host=sub + "amp-" + b.host)
+    yield "amp-prefix-before-irrelevant-subdomain", b.copy(host="amp-www." + b.host)
     yield "explicit-port-80", b.copy(port=":80")
     yield "explicit-port-443", b.copy(scheme="https://", port=":443")
     yield "host-case", b.copy(host=b.host.upper())
@@ -118,12 +121,12 @@ def transforms(b, rnd, tier):
     yield "control-characters+whitespace", b.copy(wrap=(" \x08\t", "\x9f \x01"))
 
 
-HOSTFAM = ("irrelevant-subdomain", "amp-prefix", "host-case")
+HOSTFAM = ("irrelevant-subdomain", "amp-prefix", "host-case", "irrelevant-subdomain-before-amp-prefix", "amp-prefix-before-irrelevant-subdomain")
 
 
 def family(name):
     f = name.split(":")[0]
-    if f in HOSTFAM[:2]:
+    if f in HOSTFAM[:2] or f in HOSTFAM[3:]:
         return "host-label"
     if f.startswith("index-page") or f.startswith("trailing-slash") or f == "root-slash":
         return "path-tail"
